@@ -43,6 +43,7 @@ def menu(tn, T, v, lab):
         ('M*=dict{a:1}', lambda M: M.__imul__({(a,): 1})),
         ('M**=2', lambda M: M.__ipow__(2)),
         ('update{b:v2}', lambda M: M.update({(b,): v[2]}) or M),
+        ('update(model{c:v1})', lambda M: M.update(T({(c,): v[1]})) or M),
         ('clear', lambda M: M.clear() or M),
         ('refresh', lambda M: M.refresh() or M),
         ('copy', lambda M: M.copy()),
